@@ -238,6 +238,23 @@ def task_param_lookup(pr, repo):
                    and os.path.dirname(first.p) == os.path.dirname(fi.module.path) and os.path.basename(first.p) == 'propka.cfg')
     pr.explore(ex, thunk, 'read_parameter_file lookup order')
 
+    def thunk_abs(ex, ctx):
+        # a custom file given with its directory is THAT file - also when it is called like a file shipped with the package
+        opened = []
+
+        def opener(ex, ctx_, fi_, a, k, so):
+            opened.append(a[0])
+            h = record('handle', None)
+            h.attrs['__iter_items__'] = []
+            return h
+        ex.contracts['propka.input.open_file_for_reading'] = opener
+        ex.call_function(fi, ['/somewhere/else/propka.cfg', record('P', None)])
+        from pyvc.core import PyPath
+        path = opened[0].p if opened and isinstance(opened[0], PyPath) else (opened[0] if opened else None)
+        ctx.oblige('PF: a parameter file given with an absolute path is opened at that path (a copy of the shipped file in another '
+                   'directory is not replaced by the shipped one)', len(opened) == 1 and str(path) == '/somewhere/else/propka.cfg')
+    pr.explore(ex, thunk_abs, 'read_parameter_file absolute path')
+
 
 def task_open(pr, repo):
     ex = Executor(repo)
